@@ -77,6 +77,31 @@ CLAIMS["C03"] = dict(
         "PEG (every same-position re-entry follows a first-graph edge; no unbounded recursion) are validated by the "
         "correspondence and the permutation/parse sweeps, not yet by theorems. Completeness of left-recursion marking is "
         "relative to the SCC computation (C16).")
+CLAIMS["C10"] = dict(
+   text="The generator is modelled as a Coq function (Gen/Gen.v: call maker with its identity cache, helper-rule "
+        "numbering, work list, flatten, dedupe, action handling; Gen/Render.v) driven by the tables extracted from the "
+        "source each run; the tie is text equality: render(generate g) must equal, character for character, what "
+        "PythonParserGenerator writes (or the same error class) on every repository grammar incl. python.gram (thorough) "
+        "and on random grammars. Theorems (Props/C10.v): the keyword tables are strictly sorted, duplicate-free and have "
+        "exactly the collected members; determinism w.r.t. set iteration/rule order rests on Props/C03.v and C16.v. On the "
+        "implementation: compile() of every output, one method per rule in grammar order, keyword tuples equal to an "
+        "independent count, and byte-identical output across PYTHONHASHSEED values, entry points (memory, build API, "
+        "CLI), repeated generation from one Grammar object and warm-up histories.",
+   design="6/C10", technique="Coq model of the generator checked by exact text correspondence + sortedness proof + determinism sweeps over seeds/entry points/histories",
+   note="'Is valid Python' is decided by compile() of real outputs (text-level fact, no theorem). Known finding: invalid_x* generates an uncompilable module.")
+CLAIMS["C05"] = dict(
+   text="Coq theorem (Props/C05.v) over the runtime model (Runtime/Exec.v: memoize incl. verbose path, memoize_left_rec "
+        "with its growth loop, logger, token primitives, lookahead helpers, expect_forced, and an interpreter of the "
+        "generated IR): for every well-formed IR module (decidable ir_wf), every token list, verbose on/off, cache "
+        "on/off, every truthy interpretation of actions, every fuel and every reachable state, each invocation that "
+        "yields a falsy value leaves the cursor unchanged, successful ones never move it backwards, lookahead helpers "
+        "never move it, and the cache only holds such entries (induction on fuel with a cache invariant). The model is "
+        "tied to parser.py and the generated code by K-run: outcome, value, position, tokens fetched and the WHOLE "
+        "per-invocation event trace of real generated parsers (wrapped from outside) must equal the model's under the "
+        "four configurations. The same invariant is monitored on the real parsers incl. the shipped meta-grammar parser "
+        "on every .gram file and the Python parser on test sources and invalid snippets in both passes.",
+   design="6/C05", technique="Coq proof (invariant by induction on interpreter fuel) + per-invocation trace correspondence with real parsers",
+   note="Hypothesis: action results are truthy. Known findings: explicit falsy action after consuming; four invalid_ rules of python.gram in error mode.")
 NOT_YET = {}
 NOT_APPLICABLE = {
  "C06": "equates the generated parser with CPython's own C parser/ast.parse, for which no executable model exists "
